@@ -28,6 +28,9 @@ def _setup():
     global _TMP, _DEF
     if _TMP is None:
         _TMP = Path(tempfile.mkdtemp(prefix="c19_"))
+        import atexit
+        import shutil
+        atexit.register(shutil.rmtree, _TMP, True)
         d = xdefs.header_only_definition()
         _DEF = _TMP / "def.xml"
         d.write_xml(_DEF)
